@@ -315,6 +315,13 @@ def classify(node, cfg, word, version, direction):
             return 'open-content+blocked-substitution-head:false-reject'
         if has_choice_with_emptiable_child(node) and direction == 'false-reject' and small:
             return 'open-content+choice-with-emptiable-child:false-reject'
+        if direction == 'false-reject' and small and cfg['open'][0] == 'interleave':
+            declared = set()
+            for lid, syms in model.leaf_syms.items():
+                if model.leaf_kind[lid] == 'e':
+                    declared |= syms
+            if any(sym in declared and M.wildcard_admits(cfg['open'][1], sym) for sym in word):
+                return 'open-content-interleave+name-declared-in-model:false-reject'
         return f'unclassified:{direction}: {K.witness_text(node, cfg, word)}'
     if version == '1.1' and R.has_competition(model):
         return f'v11-wildcard-precedence:{direction}'
